@@ -46,9 +46,9 @@ type Result struct {
 	Exhaustive         *bool          `json:"exhaustive,omitempty"`
 	// Extra keys are copied verbatim into the evidence coverage object (e.g. "programs",
 	// "disagreements_checked" for translation validation, "states"/"transitions").
-	Extra map[string]any `json:"extra,omitempty"`
-	distinct           map[string]struct{}
-	violSeen           map[string]struct{}
+	Extra    map[string]any `json:"extra,omitempty"`
+	distinct map[string]struct{}
+	violSeen map[string]struct{}
 }
 
 func NewResult(rule string) *Result {
